@@ -1,6 +1,7 @@
 (* Secrets_Proofs.v — C12: theorems about model/Secrets.v.
 
    sinks_ok_sound                  what [sinks_ok table = true] means for every row of a sink table
+   sinks_ok_outside_sound          the same for the rows outside a region (the region of a listed finding)
    no_secret_in_observables        (T1) for ALL operation lists and ALL histories (any pattern answers, chunks,
                                    disconnects, timeouts, blocking reads; repaired or unrepaired code): if the secrets
                                    do not occur in the non-secret inputs and the device does not print them, no log
@@ -12,7 +13,10 @@
                                    the echo of something typed when it was not asked for) nothing observable
                                    contains a secret atom — no assumption on what the device prints otherwise
    unrepaired_refuted              the unrepaired send_inputs_interact falsifies T2 and T3 (vm_compute witness:
-                                   `enable` granted without a password prompt)                                  *)
+                                   `enable` granted without a password prompt)
+   resp_observers_ok               str() / raise_for_status() of ANY Response show nothing of its channel input; repr()
+                                   is secret-free when host, channel_input and failed_when_contains are
+   resp_repr_refuted               repr() of EVERY response secret-free: false (interaction with a hidden input)  *)
 From Coq Require Import String Lia.
 From Verif Require Import Bytes Secrets.
 
@@ -38,6 +42,17 @@ Proof.
   apply str_in_In in Hid. rewrite Hid in H. cbn [negb orb] in H.
   apply existsb_exists in H. destruct H as [g [Hg Hr]]. exists g. split; [exact Hg|].
   apply str_in_In. exact Hr.
+Qed.
+
+(* the same outside a region (the region of a listed finding) *)
+Theorem sinks_ok_outside_sound : forall region table,
+  sinks_ok (outside region table) = true ->
+  forall s, In s table -> region s = false ->
+  forall id gs, In (id, gs) (s_flows s) -> In id secret_idents ->
+  exists g, In g gs /\ In g redaction_guards.
+Proof.
+  intros region table H s Hs Hr. apply (sinks_ok_sound (outside region table) H).
+  unfold outside. apply filter_In. split; [exact Hs | rewrite Hr; reflexivity].
 Qed.
 
 Theorem bad_sinks_complete : forall table, bad_sinks table = [] -> sinks_ok table = true.
@@ -403,6 +418,11 @@ Proof.
   - inv E. split; auto. unfold conf_pub in Hw.
     repeat (apply andb_true_iff in Hw; destruct Hw as [Hw ?]).
     unfold tr_ok, m_str. simpl. rewrite Hw. reflexivity.
+  - inv E. split; auto.
+    repeat (apply andb_true_iff in Hw; destruct Hw as [Hw ?]).
+    unfold tr_ok, m_resp_repr. simpl. rewrite !pub_app, Hw, H, H0. reflexivity.
+  - inv E. split; auto.
+  - unfold m_resp_raise in E. destruct (r_failed r); inv E; split; auto.
 Qed.
 
 Lemma run_op_wok_any : forall o h t s h',
@@ -428,6 +448,9 @@ Proof.
     eapply (escalate_wok_any esc_cmd esc_prompt sec2 pat prev name sec2_ne); eassumption.
   - inv E. reflexivity.
   - inv E. reflexivity.
+  - inv E. reflexivity.
+  - inv E. reflexivity.
+  - unfold m_resp_raise in E. destruct (r_failed r); inv E; reflexivity.
 Qed.
 
 (* T1 *)
@@ -598,3 +621,35 @@ Proof. vm_compute. repeat split; reflexivity. Qed.
 Theorem write_record_redacted : forall ci r a,
   w ci r a = [OLog (if r then [] else ci); OWrite ci a].
 Proof. reflexivity. Qed.
+
+(* ---- the Response objects handed to the user (scrapli/response.py) ---- *)
+(* full statement: repr() of EVERY response is free of secrets when host and failed_when_contains are *)
+Definition C12_resp_repr_full : Prop :=
+  forall r, pub (r_host r) = true -> pub (r_fwc r) = true -> forallb obs_ok (m_resp_repr r) = true.
+
+(* FALSE: the response of a send_interactive with a hidden input (channel_input = the join of all inputs);
+   known finding C12-response-repr-hidden-input *)
+Theorem resp_repr_refuted : ~ C12_resp_repr_full.
+Proof.
+  intros H. specialize (H (mkResp [Pub 0] [Pub 1; Sec 0] [] true) eq_refl eq_refl).
+  vm_compute in H. discriminate.
+Qed.
+
+(* str() and raise_for_status() of EVERY response (whatever its channel_input holds), repr() outside the finding's
+   region: nothing secret *)
+Theorem resp_observers_ok : forall r,
+  forallb obs_ok (m_resp_str r) = true /\ forallb obs_ok (fst (m_resp_raise r)) = true /\
+  (pub (r_host r) = true -> pub (r_input r) = true -> pub (r_fwc r) = true -> forallb obs_ok (m_resp_repr r) = true).
+Proof.
+  intros r. split; [reflexivity|]. split.
+  - unfold m_resp_raise. destruct (r_failed r); reflexivity.
+  - intros A B C. unfold m_resp_repr. simpl. rewrite !pub_app, A, B, C. reflexivity.
+Qed.
+
+(* non-trivial instance: a failed response of an interaction with a hidden input is looked at (str, raise_for_status),
+   then the response of a plain command (repr): T1's premises hold, the failure is raised, nothing secret shows *)
+Example resp_premises_satisfiable :
+  let ops := [OpRespStr (mkResp [Pub 0] [Pub 1; Sec 0] [Pub 2] true); OpRespRepr (mkResp [Pub 0] [Pub 3] [Pub 2] false);
+              OpRespRaise (mkResp [Pub 0] [Pub 1; Sec 0] [Pub 2] true)] in
+  forallb op_wf ops = true /\ run_ops true ops [] = ([ORepr []; ORepr [Pub 0; Pub 3; Pub 2]; OExc E_CMDFAIL []], SRaised).
+Proof. vm_compute. split; reflexivity. Qed.
